@@ -191,3 +191,59 @@ def with_empty_edge(spec):
     s = dict(spec)
     s["edges"] = list(spec["edges"]) + [[None, []]]
     return s
+
+
+def detour(obj):
+    """Edit a network *in place* so that it ends up with the same incidences, IDs and attributes but a different
+    history: the first node is removed and re-inserted (it moves to the end of the node order), the first edge is
+    removed and re-added under its old ID (it moves to the end of the edge order).  Checks evaluate their oracles once
+    on the fresh object (which also warms any cache a function might keep per network object), apply the detour, and
+    evaluate again: a result computed from a stale structure - same size, different content or order - disagrees
+    with the brute-force oracle, which is always recomputed from members() of the current object."""
+    cls = type(obj).__name__
+    try:
+        if cls == "SimplicialComplex":
+            mem = obj.edges.members(dtype=dict)
+            sets = list(mem.values())
+            for e, m in mem.items():
+                if not any(m < o for o in sets):
+                    attrs = dict(obj.edges[e])
+                    obj.remove_simplex_id(e)
+                    obj.add_simplex(sorted(m, key=repr), idx=e, **attrs)
+                    break
+            return obj
+        nodes = list(obj.nodes)
+        if nodes:
+            n = nodes[0]
+            attrs = dict(obj.nodes[n])
+            if cls == "DiHypergraph":
+                i, o = obj.nodes.dimemberships(n)
+                i, o = list(i), list(o)
+                obj.remove_node(n, remove_empty=False)
+                obj.add_node(n, **attrs)
+                for e in o:
+                    obj.add_node_to_edge(e, n, "in")
+                for e in i:
+                    obj.add_node_to_edge(e, n, "out")
+            else:
+                es = list(obj.nodes.memberships(n))
+                obj.remove_node(n, remove_empty=False)
+                obj.add_node(n, **attrs)
+                for e in es:
+                    obj.add_node_to_edge(e, n)
+        edges = list(obj.edges)
+        if edges:
+            e = edges[0]
+            attrs = dict(obj.edges[e])
+            if cls == "DiHypergraph":
+                t, h = obj.edges.dimembers(e)
+                t, h = sorted(t, key=repr), sorted(h, key=repr)
+                obj.remove_edge(e)
+                obj.add_edge((t, h), idx=e, **attrs)
+            else:
+                m = sorted(obj.edges.members(e), key=repr)
+                obj.remove_edge(e)
+                obj.add_edge(m, idx=e, **attrs)
+    except Exception:  # noqa: BLE001 - a detour that cannot be applied is simply skipped
+        pass
+    return obj
